@@ -14,7 +14,7 @@ from whatshap.graph import ComponentFinder
 
 ID = "C18"
 RULE = ("PriorityQueue: rule-based histories (push of an absent item, pop of a non-empty queue, change_score of a "
-        "queued item, lookups) over items 0-7 and scores that are ints in -3..3 or int tuples of length 1-3, compared "
+        "queued item, lookups) over items 0-11 and scores that are ints in -3..3 or int tuples of length 1-3, compared "
         "after every step with a dict model; non-trivial = history containing a change_score of an entry that is not "
         "the current maximum followed later by a pop. ComponentFinder: merge/find histories over 6-10 values of one "
         "type (ints, strings or tuples) against naive relabelling; non-trivial = a merge joining two components that "
@@ -26,7 +26,7 @@ ASSUMPTIONS = [
     "merge(x, y) is only called with x != y (asserted by the code) and with values given to the constructor",
 ]
 
-ITEMS = list(range(8))
+ITEMS = list(range(12))
 
 
 def norm(score):
@@ -155,12 +155,30 @@ class PQPart:
         scalar = st.integers(-3, 3)
         score = st.one_of(scalar, st.lists(st.integers(-2, 2), min_size=1, max_size=3))
 
+        wide = st.one_of(st.integers(-20, 20), st.lists(st.integers(-3, 3), min_size=1, max_size=3))
+
         class PQMachine(RuleBasedStateMachine):
             @precondition(lambda self: len(self.state.model) < len(ITEMS))
             @rule(data=st.data(), score=score)
             def push(self, data, score):
                 item = data.draw(st.sampled_from([i for i in ITEMS if i not in self.state.model]))
                 self.step(["push", item, score])
+
+            @precondition(lambda self: len(self.state.model) < len(ITEMS) - 3)
+            @rule(data=st.data())
+            def fill(self, data):
+                # several pushes in a row so that heaps of depth >= 3 are common
+                free = [i for i in ITEMS if i not in self.state.model]
+                k = data.draw(st.integers(2, min(6, len(free))))
+                for item in free[:k]:
+                    self.step(["push", item, data.draw(wide)])
+
+            @precondition(lambda self: len(self.state.model) >= 4)
+            @rule(data=st.data())
+            def pop_many(self, data):
+                for _ in range(data.draw(st.integers(2, 4))):
+                    if self.state.model:
+                        self.step(["pop"])
 
             @precondition(lambda self: self.state.model)
             @rule()
@@ -190,6 +208,33 @@ class PQExhaustive:
         d = self.depth[tier]
         for seq in itertools.product(alphabet, repeat=d):
             yield {"ops": list(seq)}
+
+    def run(self, case, ctx):
+        PARTS[0].run(case, ctx)
+
+
+class PQPermutations:
+    """push n entries with every ordering of n distinct scores (and every ordering with one tie), optionally change one
+    score, then drain: exhaustive for n <= 7 (quick) / 8 (thorough); reaches sift-down paths of depth 3"""
+    name = "pq-permutations"
+    budget = {"quick": 1, "thorough": 1}
+    bound = {"quick": 7, "thorough": 8}
+
+    def enumerate(self, tier):
+        N = self.bound[tier]
+        for n in range(2, N + 1):
+            for perm in itertools.permutations(range(n)):
+                ops = [["push", i, perm[i]] for i in range(n)]
+                yield {"ops": ops + [["pop"]] * n}
+                if n <= 6:
+                    # one score change before draining: every item, to the extremes and to a tie
+                    for item in range(n):
+                        for new in (-1, n, perm[(item + 1) % n]):
+                            yield {"ops": ops + [["change", item, new]] + [["pop"]] * n}
+                # a tie: two entries share a score
+                if n <= 7 and perm[0] < n - 1:
+                    tied = [["push", i, min(perm[i], n - 2)] for i in range(n)]
+                    yield {"ops": tied + [["pop"]] * n}
 
     def run(self, case, ctx):
         PARTS[0].run(case, ctx)
@@ -324,4 +369,4 @@ class CFExhaustive:
         PARTS[2].run(case, ctx)
 
 
-PARTS = [PQPart(), PQExhaustive(), CFPart(), CFExhaustive()]
+PARTS = [PQPart(), PQExhaustive(), CFPart(), CFExhaustive(), PQPermutations()]
